@@ -439,6 +439,166 @@ def _flows_to_pread(f, l, depth=0):
     return off == ('int', 0)
 
 
+def identifier_derivation(res, prog):
+    """C02.8: the debug identifier is derived from the CodeView record as documented, arm by arm of read_debug_id:
+    Pdb20 -> from_pdb20(signature, age); Pdb70 -> from_parts(uuid of the four signature fields, age) unless that uuid is
+    nil; Elf -> None exactly when EVERY byte of the build id is zero (the test looks at the whole id, before anything is
+    derived), otherwise the uuid of the GUID read with the dump's byte order from the first 16 bytes (zero-padded), with
+    no further filter; anything else -> None."""
+    res.rule('C02.8', 0, floor=7, note='debug id derivation table of read_debug_id (Pdb20 / Pdb70 / Elf / other)')
+    c = prog.crate('minidump')
+    f = need_fn(res, c, 'minidump::minidump::read_debug_id', 'C02.8')
+    if f is None:
+        return
+    adt = c.adts.get('minidump::minidump::CodeView')
+    names = {v.get('discr', i): v['name'] for i, v in enumerate(adt['variants'])} if adt else {}
+    arms = {}
+    for (b, i, tr) in ret_assigns(f):
+        facts = [r for r, gd, sx in panics.dominating_facts(f, b)]
+        which = None
+        for r in facts:
+            if r[0] == 'switch' and r[1][0] == 'discr' and show(f.expand(r[1][1])) in ('codeview_info', '(deref codeview_info)'):
+                which = names.get(r[2], 'other') if isinstance(r[2], int) else 'other'
+        arms.setdefault(which, []).append((b, f.expand(tr), facts))
+
+    def closure_ret(path):
+        g = c.fn(path)
+        return [show(g.expand(t)) for (_, _, t) in ret_assigns(g)] if g is not None else None
+    # other
+    res.rule('C02.8', 1)
+    if [show(t) for b, t, fs in arms.get('other', [])] != ['(adt std::option::Option::None)']:
+        res.violation('C02.8', 'C02.8|other', f, f.line, 'CodeView records other than Pdb20 / Pdb70 / Elf do not simply give None: %s' % [show(t)[:80] for b, t, fs in arms.get('other', [])])
+    # Pdb20
+    res.rule('C02.8', 1)
+    got = [show(t) for b, t, fs in arms.get('Pdb20', [])]
+    if got != ['(adt std::option::Option::Some (debugid::DebugId::from_pdb20 (Pdb20.0 codeview_info).signature (Pdb20.0 codeview_info).age))']:
+        res.violation('C02.8', 'C02.8|pdb20', f, f.line, 'Pdb20 debug id is not from_pdb20(signature, age): %s' % [x[:160] for x in got])
+    # Pdb70
+    res.rule('C02.8', 1)
+    ok = False
+    a70 = arms.get('Pdb70', [])
+    if len(a70) == 1:
+        t = a70[0][1]
+        sig = '(Pdb70.0 codeview_info).signature'
+        uu = '(uuid::builder::from_fields %s.data1 %s.data2 %s.data3 %s.data4)' % (sig, sig, sig, sig)
+        if is_call(t, 'core::bool::then') and show(t[2]) == '(un Not (uuid::Uuid::is_nil %s))' % uu and t[3][0] == 'closure':
+            ok = closure_ret(t[3][1]) == ['(debugid::DebugId::from_parts uuid raw.age)'] and [show(x) for x in t[3][2:]] == [uu, '(Pdb70.0 codeview_info)']
+    if not ok:
+        res.violation('C02.8', 'C02.8|pdb70', f, f.line, 'Pdb70 debug id is not `(!uuid.is_nil()).then(|| from_parts(uuid(signature), age))`: %s' % [show(x[1])[:200] for x in a70])
+    # Elf
+    elf = arms.get('Elf', [])
+    nones = [(b, t, fs) for b, t, fs in elf if show(t) == '(adt std::option::Option::None)']
+    somes = [(b, t, fs) for b, t, fs in elf if show(t) != '(adt std::option::Option::None)']
+    res.rule('C02.8', 1)
+    okn = False
+    why = 'expected exactly one None outcome, governed by build_id.iter().all(|b| *b == 0)'
+    if len(nones) == 1 and len(somes) == 1:
+        fs = [r for r in nones[0][2] if r[0] in ('true', 'false') and is_call(r[1], 'Iterator>::all')]
+        if len(fs) == 1 and fs[0][0] == 'true':
+            call = fs[0][1]
+            cl = call[3] if len(call) > 3 else None
+            recv = call[2]
+            src = ''
+            if recv[0] == 'var' and isinstance(recv[2], int):
+                ds = [d for d in f.defs.get(recv[2], []) if d['kind'] in ('assign', 'call')]
+                src = ' | '.join(show(f.expand(f.rvalue_tree(d['rv']) if d['kind'] == 'assign' else f.call_tree(d['term']))) for d in ds)
+            else:
+                src = show(f.expand(recv))
+            whole = src == '(core::slice::iter (<std::vec::Vec<T, A> as std::ops::Deref>::deref (Elf.0 codeview_info).build_id))'
+            zero = cl is not None and cl[0] == 'closure' and closure_ret(cl[1]) in (['(Eq byte 0)'], ['(Eq (deref byte) 0)'], ['(Eq 0 byte)'])
+            okn = whole and zero
+            if not whole:
+                why = 'the all-zero test does not run over the whole build id: %s' % src[:160]
+            elif not zero:
+                why = 'the all-zero test compares %s' % (closure_ret(cl[1]) if cl else None)
+        # the Some outcome must be under the false edge of the same test
+        if okn and not any(r[0] == 'false' and is_call(r[1], 'Iterator>::all') for r in somes[0][2]):
+            okn, why = False, 'the derived id is not under the "some byte is non-zero" edge'
+    if not okn:
+        res.violation('C02.8', 'C02.8|elf-none', f, f.line, 'Elf: %s' % why)
+    res.rule('C02.8', 1)
+    oks = False
+    if len(somes) == 1:
+        t = somes[0][1]
+        calls = [n[1] for n in walk(t) if isinstance(n, tuple) and n and n[0] == 'call']
+        extra = [n for n in calls if not re.search(r'^std::option::Option::(map|and_then)$', n)]
+        inner = t
+        shape = is_call(t, 'Option::map') and t[3] == ('fnref', 'debugid::DebugId::from_uuid') and is_call(t[2], 'Option::map') and t[2][3][0] == 'closure' \
+            and closure_ret(t[2][3][1]) == ['(uuid::builder::from_fields g.data1 g.data2 g.data3 g.data4)']
+        oks = shape and not extra
+        if not oks:
+            res.violation('C02.8', 'C02.8|elf-some', f, f.line, 'Elf: the id is not guid.map(uuid of data1..data4).map(from_uuid) without further filtering: %s' % show(t)[:240])
+    elif somes:
+        res.violation('C02.8', 'C02.8|elf-some', f, f.line, 'Elf: %d derived outcomes' % len(somes))
+    # the GUID: read at offset 0 with the dump's byte order from the build id or its zero-padded copy
+    gl = [l for l in range(len(f.locals)) if f.local_name(l) == 'guid']
+    for l in gl:
+        for d in f.defs.get(l, []):
+            if d['kind'] not in ('assign', 'call'):
+                continue
+            res.rule('C02.8', 1)
+            tr = f.expand(f.call_tree(d['term']) if d['kind'] == 'call' else f.rvalue_tree(d['rv']))
+            src = tr[2] if is_call(tr, 'Result::ok') else tr
+            ok = is_call(src, 'scroll::Pread::pread_with') and src[3] == ('int', 0) and show(src[4]) == 'endian' and 'minidump_common::format::GUID' in (d.get('term') or {}).get('targs', ['minidump_common::format::GUID'])
+            base = show(src[2]) if ok else ''
+            direct = base == '(<std::vec::Vec<T, A> as std::ops::Deref>::deref (Elf.0 codeview_info).build_id)'
+            padded = 'std::iter::repeat 0' in base and '(Elf.0 codeview_info).build_id' in base and 'Iterator::take' in base and 'Iterator::chain' in base
+            if not (ok and (direct or padded)):
+                res.violation('C02.8', 'C02.8|elf-guid', f, (d.get('term') or d.get('st') or {}).get('line'), 'Elf: the GUID is not pread_with::<GUID>(0, endian) over the build id (or its zero-padded copy): %s' % show(tr)[:200])
+    if not gl:
+        res.error('C02.8', 'local `guid` of read_debug_id not found')
+
+
+def code_identifier_derivation(res, prog):
+    """C02.9: the code identifier table of MinidumpModule::code_identifier: Pdb70 on macOS / iOS -> the signature in
+    `{:#}` form; Pdb20 / Pdb70 -> `{:08X}{:x}` of (time_date_stamp, size_of_image); Elf -> None exactly when every byte
+    of the build id is zero, else CodeId::from_binary(whole build id); no CodeView record on Windows -> the same
+    timestamp/size form; anything else -> None."""
+    res.rule('C02.9', 0, floor=5, note='code id derivation table of MinidumpModule::code_identifier')
+    c = prog.crate('minidump')
+    fs = [g for g in c.fns if g.path.endswith('MinidumpModule as minidump_common::traits::Module>::code_identifier')]
+    if len(fs) != 1:
+        res.error('C02.9', 'MinidumpModule::code_identifier not found')
+        return
+    f = fs[0]
+    TS = ('(adt std::option::Option::Some (debugid::CodeId::new (std::hint::must_use (std::fmt::format (std::fmt::Arguments::new (bytes (195 32 0 0 105 8 0 192 0)) '
+          '(array (core::fmt::rt::Argument::new_upper_hex (tuple self.raw.time_date_stamp self.raw.size_of_image).0) (core::fmt::rt::Argument::new_lower_hex (tuple self.raw.time_date_stamp self.raw.size_of_image).1)))))))')
+    MAC = ('(adt std::option::Option::Some (debugid::CodeId::new (std::hint::must_use (std::fmt::format (std::fmt::Arguments::new (bytes (193 32 0 128 96 0)) '
+           '(array (core::fmt::rt::Argument::new_display (tuple (Pdb70.0 (Some.0 self.codeview_info)).signature).0)))))))')
+    ELF = '(adt std::option::Option::Some (debugid::CodeId::from_binary (<std::vec::Vec<T, A> as std::ops::Deref>::deref (Elf.0 (Some.0 self.codeview_info)).build_id)))'
+    NONE = '(adt std::option::Option::None)'
+    seen = {}
+    for (b, i, tr) in ret_assigns(f):
+        txt = show(f.expand(tr))
+        facts = [r for r, gd, sx in panics.dominating_facts(f, b)]
+        seen.setdefault(txt, []).append(facts)
+    for want, what in ((TS, 'timestamp+size'), (MAC, 'mac signature'), (ELF, 'elf build id'), (NONE, 'none')):
+        res.rule('C02.9', 1)
+        if want not in seen:
+            res.violation('C02.9', 'C02.9|%s' % what, f, f.line, 'the %s form of the code identifier is no longer produced as documented' % what)
+    res.rule('C02.9', 1)
+    extra = [x for x in seen if x not in (TS, MAC, ELF, NONE)]
+    if extra:
+        res.violation('C02.9', 'C02.9|extra', f, f.line, 'code identifier derived in an undocumented way: %s' % extra[0][:240])
+    # Elf: governed by the all-zero test over the whole build id
+    res.rule('C02.9', 1)
+    ok = False
+    for facts in seen.get(ELF, []):
+        for r in facts:
+            if r[0] == 'false' and is_call(r[1], 'Iterator>::all'):
+                recv = r[1][2]
+                src = ''
+                if recv[0] == 'var' and isinstance(recv[2], int):
+                    src = ' | '.join(show(f.expand(f.rvalue_tree(d['rv']) if d['kind'] == 'assign' else f.call_tree(d['term']))) for d in f.defs.get(recv[2], []) if d['kind'] in ('assign', 'call'))
+                cl = r[1][3]
+                g = c.fn(cl[1]) if cl[0] == 'closure' else None
+                zero = g is not None and [show(g.expand(t)) for (_, _, t) in ret_assigns(g)] in (['(Eq byte 0)'], ['(Eq (deref byte) 0)'])
+                if zero and src == '(core::slice::iter (<std::vec::Vec<T, A> as std::ops::Deref>::deref (Elf.0 (Some.0 self.codeview_info)).build_id))':
+                    ok = True
+    if ELF in seen and not ok:
+        res.violation('C02.9', 'C02.9|elf-zero', f, f.line, 'Elf code id: not guarded by "not every byte of the whole build id is zero"')
+
+
 def run(tier, t0):
     res = harness.Result(PID)
     prog = program()
@@ -450,6 +610,8 @@ def run(tier, t0):
     default_context_reads(res, prog)
     memory_regions(res, prog)
     cpu_union(res, prog)
+    identifier_derivation(res, prog)
+    code_identifier_derivation(res, prog)
     res.assumptions += [
         'scroll reads a field with the endianness it is given and derive(Pread)/derive(SizeWith) walk the same field list (trusted crate)',
         'field offsets and padding against the serializer, identifier derivation and memory contents are NOT decided (they relate values to values)',
